@@ -1,0 +1,44 @@
+//go:build verif
+
+// Verification hooks for the content / wire-fidelity checks (build tag "verif"): thin re-exports of the
+// unexported client-side result decoders. Nothing here is compiled into a normal build.
+
+package mcp
+
+import "encoding/json"
+
+// VerifParseCallToolResult re-exports parseCallToolResult (the decoder behind Client.CallTool).
+func VerifParseCallToolResult(raw []byte) (*CallToolResult, error) {
+	rm := json.RawMessage(raw)
+	return parseCallToolResult(&rm)
+}
+
+// VerifParseReadResourceResult re-exports parseReadResourceResultFromJSON (Client.ReadResource).
+func VerifParseReadResourceResult(raw []byte) (*ReadResourceResult, error) {
+	rm := json.RawMessage(raw)
+	return parseReadResourceResultFromJSON(&rm)
+}
+
+// VerifParseGetPromptResult re-exports parseGetPromptResultFromJSON (Client.GetPrompt).
+func VerifParseGetPromptResult(raw []byte) (*GetPromptResult, error) {
+	rm := json.RawMessage(raw)
+	return parseGetPromptResultFromJSON(&rm)
+}
+
+// VerifParseListToolsResult re-exports parseListToolsResultFromJSON (Client.ListTools).
+func VerifParseListToolsResult(raw []byte) (*ListToolsResult, error) {
+	rm := json.RawMessage(raw)
+	return parseListToolsResultFromJSON(&rm)
+}
+
+// VerifParseListPromptsResult re-exports parseListPromptsResultFromJSON (Client.ListPrompts).
+func VerifParseListPromptsResult(raw []byte) (*ListPromptsResult, error) {
+	rm := json.RawMessage(raw)
+	return parseListPromptsResultFromJSON(&rm)
+}
+
+// VerifParseListResourcesResult re-exports parseListResourcesResultFromJSON (Client.ListResources).
+func VerifParseListResourcesResult(raw []byte) (*ListResourcesResult, error) {
+	rm := json.RawMessage(raw)
+	return parseListResourcesResultFromJSON(&rm)
+}
